@@ -369,7 +369,7 @@ func c04Seq(tier string) []SeqJob {
 		out = append(out, SeqJob{Name: name, Spec: spec, Seconds: secs})
 	}
 	if tier == "quick" {
-		mk("seq/setbuf1/depth5", 1, "", 5, 40)
+		mk("seq/setbuf1/depth6", 1, "", 6, 40)
 		mk("seq/setbuf2/depth5", 2, "", 5, 40)
 		mk("seq/setbuf2/shouldupdate-refuses-even/depth5", 2, "refuse-even", 5, 40)
 	} else {
